@@ -34,7 +34,10 @@ EXPECTED_PROBES = {
     "quick": ["fantasy_created", "fantasy_of_fantasy", "failed_creation_source_checked", "carried_caches_compared", "fantasy_predicted"],
     "thorough": ["fantasy_created", "fantasy_of_fantasy", "failed_creation_source_checked", "carried_caches_compared", "fantasy_predicted"],
 }
-FAMILIES = ["default", "default", "default", "default", "kissgp", "multitask", "hadamard"]
+# SGPR is not in this zoo: SGPRPredictionStrategy.get_fantasy_strategy raises NotImplementedError (unsupported), and the
+# accidental route (source strategy created under lazily_evaluate_kernels(False), hence a DefaultPredictionStrategy) is
+# inexact on the unchanged tree (fantasy covariance off by up to 2e-3 from scratch), so it cannot be judged soundly.
+FAMILIES = ["default", "default", "default", "default", "kissgp", "multitask", "hadamard", "hadamard"]
 PATTERNS = ["same", "same", "fbatch_per", "fbatch_shared"]
 
 
@@ -46,7 +49,10 @@ def generate(rng, tier, index):
     recipe.pop("active_dims", None) if rng.random() < 0.5 else None
     faulty = index % 3 == 2
     allow = {"fast_pred_var", "detach_test_caches", "max_eager_kernel_size", "lazily_evaluate_kernels"}
-    if rng.random() < 0.4:
+    if recipe["family"] == "sgpr":
+        # an SGPR model can be fantasised when its strategy was created under lazily_evaluate_kernels(False)
+        allow = {"fast_pred_var", "lazily_evaluate_kernels", "sgpr_diagonal_correction"}
+    elif rng.random() < 0.4:
         allow = set(rng.sample(sorted(allow), rng.randint(0, 2)))
     p_each = rng.choice([0.3, 0.6, 0.9])
     max_len = rng.randint(3, 9) if not thorough else rng.randint(4, 24)
@@ -65,11 +71,18 @@ def generate(rng, tier, index):
             "grad": rng.random() < 0.15,
         }
 
+    xseeds = []
+
     def gen_fant(node=None):
+        sd = rng.randrange(1 << 30)
+        # sibling fantasies at the SAME locations (other targets / other task indices) are a common use (sampled targets)
+        xs_ = rng.choice(xseeds) if (xseeds and rng.random() < 0.3) else sd
+        xseeds.append(xs_)
         return {
             "op": "fantasize",
             "node": rng.randrange(8) if node is None else node,
-            "seed": rng.randrange(1 << 30),
+            "seed": sd,
+            "xseed": xs_,
             "m": rng.randint(1, 3),
             "pattern": rng.choice(PATTERNS),
             "f": rng.randint(2, 3),
@@ -88,6 +101,8 @@ def generate(rng, tier, index):
         }
 
     ops.append(gen_pred(0))
+    if recipe["family"] == "sgpr":
+        ops[0]["bundle"] = [["lazily_evaluate_kernels", {"state": False}]] + [b for b in ops[0]["bundle"] if b[0] != "lazily_evaluate_kernels"]
     ops.append(gen_fant(0))
     ops.append(gen_pred(1))
     while len(ops) < max_len:
@@ -128,7 +143,11 @@ class Node:
 
 
 def tolerance(recipe):
-    return 1e-4 if recipe["family"] == "kissgp" else 1e-6
+    if recipe["family"] == "kissgp":
+        return 1e-4
+    if recipe["family"] == "sgpr":
+        return 1e-5  # low-rank train covariance (Woodbury, jitter on K_uu): bordered update vs refactorisation differ by ~1e-6
+    return 1e-6
 
 
 def scratch_model(recipe, root_sd, node):
@@ -251,7 +270,7 @@ def fantasy_data(recipe, node, op):
         in_b, tg_b = [f] + nb, [f] + nb
     else:  # fbatch_shared: inputs without the fantasy batch, targets with it
         in_b, tg_b = nb, [f] + nb
-    xf = zoo.rand(op["seed"], *in_b, m, d)
+    xf = zoo.rand(op.get("xseed", op["seed"]), *in_b, m, d)
     # targets: a smooth function + per-fantasy noise
     base_x = xf if len(in_b) == len(tg_b) else xf.expand(*tg_b, m, d)
     yf = zoo.make_targets(op["seed"] + 1, base_x, tasks=tasks)
@@ -485,8 +504,8 @@ def check_fantasy_object(out, i, recipe, root_sd, node, op, tol):
         out.violate("fantasy_shares_state", i, "fantasy model shares parameter objects with its source: %s" % shared[:3], what="parameters", **cls)
     # carried caches vs recomputation (oracle 2)
     strat = fm.prediction_strategy
-    if strat is None or fam == "kissgp":
-        return
+    if strat is None or fam in ("kissgp", "sgpr"):
+        return  # their covar_cache has a kernel-specific meaning in the from-scratch model
     try:
         R = scratch_model(recipe, root_sd, node)
         xs = test_args(recipe, {"seed": op["seed"] + 17, "t": 2, "batched_x": True}, node)
